@@ -1,6 +1,7 @@
 """Contracts for the peer book (C19): reconnection back-off and the connected / disconnected maps of the NetworkManager."""
 from pyvc import *
 from pyvc.spec import ContractSet
+import z3
 
 PB = ContractSet()
 
@@ -31,3 +32,223 @@ def _(c):
         # and it IS time once that long has passed (or there was no attempt yet)
         "implies(k <= 2880 and (last is None or current_time - last >= %s), result)" % BACKOFF)
     c.no_raise()
+
+
+# ---- the peer book's two maps -------------------------------------------------------------------------------------------
+KEY = TUPLE(STR, INT, STR)
+
+
+def book_shape(with_owner_book=True):
+    import skepticoin.networking.local_peer  # noqa
+    import skepticoin.networking.manager as m
+    import skepticoin.networking.local_peer as lpm
+    # the manager's `local_peer` refers back to the manager (A-ALIAS).  Heap shapes are trees, so the back reference is
+    # spelled out one level deep as a separate cell that only makes the callee's contract text evaluable; what a call of
+    # self.local_peer.disconnect(...) does is applied to the CALLING manager itself (disconnect_effect below).
+    if with_owner_book:
+        owner = StateShape(lpm.LocalPeer, logger=('const', ('logger',)), selector=('const', ('external',)),
+                           network_manager=book_shape(False), disk_interface=('const', ('opaque',)), nonce=INT)
+    else:
+        owner = StateShape(lpm.LocalPeer, logger=('const', ('logger',)))
+    return StateShape(m.NetworkManager, local_peer=owner,
+                      my_addresses=('mutable', 'set', SET(TUPLE(STR, INT))),
+                      connected_peers=('mutable', 'dict', MAP(KEY, INT)),          # values: peer objects, as opaque ids
+                      disconnected_peers=('mutable', 'dict', MAP(KEY, CLS('DisconnectedRemotePeer'))),
+                      disk_interface=('const', ('opaque',)))
+
+
+# no address is both connected and waiting for reconnection
+BOOK = "every(KEYT, lambda k: not (k in %(s)s.connected_peers and k in %(s)s.disconnected_peers))"
+
+
+@PB.contract("skepticoin.networking.manager.NetworkManager._sanity_check#C19", props=["C19"])
+def _(c):
+    c.params(self=book_shape())
+    # it returns exactly when the book is consistent (its raising is "the condition that stops the network loop")
+    c.ensures(BOOK % {'s': 'self'})
+    c.raises_only_if("not " + BOOK % {'s': 'self'})
+    c.loop(0).invariant("all(ITERATED[j] not in self.disconnected_peers for j in range(i))")
+
+
+def peer_shape():
+    import skepticoin.networking.remote_peer as rp
+    import skepticoin.networking.local_peer as lpm
+    owner = StateShape(lpm.LocalPeer, logger=('const', ('logger',)))
+    return StateShape(rp.ConnectedRemotePeer, local_peer=owner, host=STR, port=INT, direction=STR,
+                      last_connection_attempt=OPT(INT), ban_score=INT, hello_received=BOOL, hello_sent=BOOL,
+                      sock=('const', ('external',)))
+
+
+@PB.contract("skepticoin.networking.manager.NetworkManager.handle_peer_disconnected#C19", props=["C19"])
+def _(c):
+    c.params(self=book_shape(), remote_peer=peer_shape())
+    c.let(key="(remote_peer.host, remote_peer.port, remote_peer.direction)", conn0="self.connected_peers",
+          disc0="self.disconnected_peers", k0="remote_peer.ban_score", hello="remote_peer.hello_received")
+    c.ensures(
+        # the book stays consistent, the peer is no longer connected
+        BOOK % {'s': 'self'},
+        "key not in self.connected_peers",
+        "every(KEYT, lambda k: implies(k != key, (k in self.connected_peers) == (k in conn0)))",
+        # an OUTGOING peer waits for reconnection; its failure count went up by one iff the connection ended without a greeting
+        "implies(remote_peer.direction == 'OUTGOING', key in self.disconnected_peers and "
+        "self.disconnected_peers[key].ban_score == k0 + (0 if hello else 1) and "
+        "self.disconnected_peers[key].last_connection_attempt == remote_peer.last_connection_attempt and "
+        "self.disconnected_peers[key].host == remote_peer.host and self.disconnected_peers[key].port == remote_peer.port and "
+        "self.disconnected_peers[key].direction == remote_peer.direction)",
+        "implies(remote_peer.direction == 'OUTGOING', remote_peer.ban_score == k0 + (0 if hello else 1))",
+        # an incoming one is simply forgotten
+        "implies(remote_peer.direction != 'OUTGOING', same(self.disconnected_peers, disc0) and remote_peer.ban_score == k0)",
+        "every(KEYT, lambda k: implies(k != key, (k in self.disconnected_peers) == (k in disc0)))")
+    # when it raises (inconsistent book, peer not connected) nothing was entered, and a consistent book stays consistent
+    c.on_raise("same(self.disconnected_peers, disc0)", "k0 <= remote_peer.ban_score <= k0 + 1",
+               "implies(hello, remote_peer.ban_score == k0)",
+               "implies(every(KEYT, lambda k: not (k in conn0 and k in disc0)), %s)" % (BOOK % {'s': 'self'}))
+    c.modifies("self.connected_peers", "self.disconnected_peers", "remote_peer.ban_score")
+
+
+
+def owner_shape():
+    """the local peer as the network handlers see it: its logger, its selector (external), its network manager"""
+    import skepticoin.networking.local_peer as lpm
+    return StateShape(lpm.LocalPeer, logger=('const', ('logger',)), selector=('const', ('external',)),
+                      network_manager=book_shape(), disk_interface=('const', ('opaque',)), nonce=INT)
+
+
+def connected_shape(owner=None):
+    import skepticoin.networking.remote_peer as rp
+    return StateShape(rp.ConnectedRemotePeer, local_peer=owner or owner_shape(), host=STR, port=INT, direction=STR,
+                      last_connection_attempt=OPT(INT), ban_score=INT, hello_received=BOOL, hello_sent=BOOL,
+                      sock=('const', ('external',)))
+
+
+NMB = "self.network_manager"
+
+
+def _book_formula(eng, conn_t, disc_t, key_ty, cty, dty):
+    from pyvc.types import to_sort, opt_sort
+    k = z3.Const('bk!k', to_sort(key_ty, eng.reg))
+    oc = opt_sort(to_sort(cty, eng.reg))
+    od = opt_sort(to_sort(dty, eng.reg))
+    return z3.ForAll([k], z3.Not(z3.And(oc.is_some(z3.Select(conn_t, k)), od.is_some(z3.Select(disc_t, k)))))
+
+
+def disconnect_effect(eng, st, vals):
+    """what LocalPeer.disconnect does to the peer book, for callers: the two maps of THE network manager may change, and a
+    consistent book stays consistent (the post-condition verified for the function itself).  The network manager is the
+    local peer's `network_manager`; when the caller is a method of the network manager whose `local_peer` shape does not
+    spell that field out, it is the caller's own `self` (A-ALIAS: a LocalPeer and its NetworkManager refer to each other)."""
+    from pyvc.engine import Ref
+    lp = vals['self']
+    h = st.heap[lp.loc] if isinstance(lp, Ref) else None
+    nm = None
+    caller = st.stack[-2] if len(st.stack) >= 2 else None
+    cself = caller.vars.get('self') if caller is not None else None
+    if isinstance(cself, Ref) and getattr(st.heap[cself.loc].cls, '__name__', '') == 'NetworkManager' \
+            and isinstance(st.heap[cself.loc].fields.get('local_peer'), Ref) and isinstance(lp, Ref) \
+            and st.heap[cself.loc].fields['local_peer'].loc == lp.loc:
+        nm = cself                       # called as self.local_peer.disconnect(...) from the manager: its own book
+        eng.assumptions_used.add('A-ALIAS')
+    elif h is not None and h.fields and isinstance(h.fields.get('network_manager'), Ref):
+        nm = h.fields['network_manager']
+    if nm is None:
+        raise Outside("LocalPeer.disconnect: cannot locate the network manager whose book it changes")
+    nh = st.heap[nm.loc]
+    cref, dref = nh.fields['connected_peers'], nh.fields['disconnected_peers']
+    c0, d0 = st.heap[cref.loc].val, st.heap[dref.loc].val
+    c1, d1 = eng.fresh('connected_peers', c0.ty, st), eng.fresh('disconnected_peers', d0.ty, st)
+    st.heap[cref.loc].val, st.heap[dref.loc].val = c1, d1
+    st.writes += 1
+    st.assume(z3.Implies(_book_formula(eng, c0.t, d0.t, c0.ty.args[0], c0.ty.args[1], d0.ty.args[1]),
+                         _book_formula(eng, c1.t, d1.t, c0.ty.args[0], c0.ty.args[1], d0.ty.args[1])))
+    rp_ = vals.get('remote_peer')
+    if isinstance(rp_, Ref) and st.heap[rp_.loc].fields and 'ban_score' in st.heap[rp_.loc].fields:
+        b0 = st.heap[rp_.loc].fields['ban_score']
+        b1 = eng.fresh('ban_score', INT, st)
+        st.heap[rp_.loc].fields['ban_score'] = b1
+        st.assume(z3.And(b1.t >= eng.term(b0, INT), b1.t <= eng.term(b0, INT) + 1))
+        hr = st.heap[rp_.loc].fields.get('hello_received')
+        if hr is not None:
+            st.assume(z3.Implies(eng.b(eng.truth(hr, st)), b1.t == eng.term(b0, INT)))      # greeted peers are not penalised
+
+
+@PB.contract("skepticoin.networking.local_peer.LocalPeer.disconnect#C19", props=["C19"])
+def _(c):
+    c.params(self=owner_shape(), remote_peer=peer_shape())
+    c.let(conn0=NMB + ".connected_peers", disc0=NMB + ".disconnected_peers")
+    # whatever happens while unregistering / closing / book-keeping: nothing escapes, and a consistent book stays consistent
+    # (the failure counter of the peer is the subject of handle_peer_disconnected's own contract)
+    c.ensures("implies(every(KEYT, lambda k: not (k in conn0 and k in disc0)), %s)" % (BOOK % {'s': NMB}),
+              "old(remote_peer.ban_score) <= remote_peer.ban_score <= old(remote_peer.ban_score) + 1",
+              "implies(remote_peer.hello_received, remote_peer.ban_score == old(remote_peer.ban_score))")
+    c.no_raise()
+    c.modifies(NMB + ".connected_peers", NMB + ".disconnected_peers", "remote_peer.ban_score")
+    c.effect(disconnect_effect)
+
+
+@PB.contract("skepticoin.networking.manager.NetworkManager.handle_peer_connected#C19", props=["C19"])
+def _(c):
+    c.params(self=book_shape(), remote_peer=peer_shape())
+    c.let(key="(remote_peer.host, remote_peer.port, remote_peer.direction)", conn0="self.connected_peers",
+          disc0="self.disconnected_peers")
+    c.requires(BOOK % {'s': 'self'})
+    c.ensures(BOOK % {'s': 'self'}, "key in self.connected_peers", "key not in self.disconnected_peers")
+    # (it can raise only through the consistency check, i.e. never from a consistent book; whatever happens the book stays
+    # consistent)
+    c.on_raise(BOOK % {'s': 'self'})
+    c.modifies("self.connected_peers", "self.disconnected_peers")
+
+
+PNM = "self.local_peer.network_manager"
+
+
+def hello_shape():
+    import skepticoin.networking.messages as msg
+    return StateShape(msg.HelloMessage, my_port=INT, nonce=INT, user_agent=BYTES)
+
+
+@PB.contract("skepticoin.networking.remote_peer.ConnectedRemotePeer.handle_hello_message_received#C19", props=["C19"])
+def _(c):
+    c.params(self=connected_shape(), header=('const', ('opaque',)), message=hello_shape())
+    c.let(conn0=PNM + ".connected_peers", disc0=PNM + ".disconnected_peers", mine0=PNM + ".my_addresses")
+    c.requires(BOOK % {'s': PNM})
+    c.ensures(
+        # a greeting resets the count of consecutive failures
+        "self.hello_received and self.ban_score == 0",
+        BOOK % {'s': PNM},
+        # a connection to this node itself (the greeting carries our own nonce) is recognised: the address is recorded as
+        # our own (step() never dials an own address) and the connection is dropped through LocalPeer.disconnect
+        "implies(self.direction == 'OUTGOING' and message.nonce == self.local_peer.nonce, "
+        "(self.host, self.port) in %s.my_addresses)" % PNM,
+        "every(ADDRT, lambda a: implies(a in mine0, a in %s.my_addresses))" % PNM)
+    c.on_raise(BOOK % {'s': PNM})
+    c.modifies("self.hello_received", "self.ban_score", PNM + ".connected_peers", PNM + ".disconnected_peers",
+               PNM + ".my_addresses")
+
+
+def peers_message_shape():
+    import skepticoin.networking.messages as msg
+    return StateShape(msg.PeersMessage, peers=LIST(CLS('Peer')))
+
+
+@PB.contract("skepticoin.networking.remote_peer.ConnectedRemotePeer.handle_peers_message_received#C19", props=["C19"])
+def _(c):
+    c.params(self=StateShape(__import__('skepticoin.networking.remote_peer', fromlist=['x']).ConnectedRemotePeer,
+                             local_peer=owner_shape(), host=STR, port=INT, direction=STR, ban_score=INT,
+                             waiting_for_peers=BOOL),
+             header=('const', ('opaque',)), message=peers_message_shape())
+    c.let(conn0=PNM + ".connected_peers")
+    c.requires(BOOK % {'s': PNM})
+    # announced peers never disturb the book, and never touch the connected map
+    c.ensures(BOOK % {'s': PNM}, "same(%s.connected_peers, conn0)" % PNM)
+    c.on_raise(BOOK % {'s': PNM})
+    c.modifies("self.waiting_for_peers", PNM + ".disconnected_peers")
+    c.loop(0).invariant(BOOK % {'s': PNM}, "same(%s.connected_peers, conn0)" % PNM)
+
+
+@PB.contract("skepticoin.networking.manager.NetworkManager.__init__#C19", props=["C19"])
+def _(c):
+    import skepticoin.networking.manager as m
+    c.params(self=StateShape(m.NetworkManager), local_peer=('const', ('opaque',)), disk_interface=('const', ('opaque',)))
+    # a new book is empty, hence consistent
+    c.ensures("len(self.connected_peers) == 0 and len(self.disconnected_peers) == 0")
+    c.modifies("self.local_peer", "self.my_addresses", "self.connected_peers", "self.disconnected_peers", "self.disk_interface")
